@@ -41,6 +41,18 @@ where
     Observable::create(move |s| {
       let sctl = StreamController::new(s);
       let timer = Arc::new(RwLock::new(None::<Subscription<'a>>));
+      {
+        // when the subscription ends, cancel the timer that is still armed: its worker thread
+        // then leaves at its next wake-up instead of firing into a finished subscription and
+        // sleeping one more period
+        let timer = Arc::clone(&timer);
+        sctl.set_on_finalize(move || {
+          let armed = timer.write().unwrap().take();
+          if let Some(armed) = armed {
+            armed.unsubscribe();
+          }
+        });
+      }
       let scheduler_ctor = scheduler_ctor.clone();
 
       let sctl_next = sctl.clone();
@@ -58,7 +70,8 @@ where
 
           sctl_next.sink_next(x);
 
-          {
+          if sctl_next.is_subscribed() {
+            // (a subscriber that finished while handling this item needs no further timer)
             let sctl = sctl_next.clone();
             let scheduler_ctor = scheduler_ctor.clone();
             *timer.write().unwrap() = Some(
